@@ -10,7 +10,6 @@ open Py Xs.Bind Xs.Bind.F1 Xs.Bind.FN
 /-- what the proof needs to know about an element var (any feature set) -/
 structure ElemFactsN (m : XmlMeta) (var : XmlVar) : Prop where
   isElem : var.kind = .element
-  init : var.init = true
   mixed : var.mixed = false
   anyType : var.anyType = false
   union : var.isClazzUnion = false
